@@ -125,72 +125,90 @@ def run_op(W, fc, op):
     return result_key(f(fc, W.observation(), verbose=False))
 
 
-def check_case(ctx, case):
-    with tempfile.TemporaryDirectory() as d:
-        W = World(case, d)
+class Session:
+    """one forecast object under a growing history; step() applies an operation and checks the invariants"""
+
+    def __init__(self, ctx, W):
+        self.ctx, self.W = ctx, W
+        self.fresh = {}
+        self.hist = []
+        self.dead = False
         o = call(W.forecast)
         if not o.ok:
             ctx.unexpected(o, "build_forecast:" + W.src)
+            self.dead = True
             return
-        fc = o.value
-        fresh = {}
-        hist = []
-        for step, op in enumerate(case["ops"]):
-            hist.append(op)
-            tag = "%s@%s" % (op, W.src)
-            o = call(run_op, W, fc, op)
-            if not o.ok:
-                ctx.unexpected(o, "op:" + op + (":first" if step == 0 else ":after_history"))
-                return
-            got = o.value
-            # ---- op-specific expectations from the model
-            if op == "iterate":
-                want = [(i, [tuple(ev) for ev, _, _ in cat]) for i, cat in enumerate(W.model)]
-                if len(got) != W.n:
-                    ctx.violation("pass_yields_wrong_number_of_catalogs", {"history": hist, "got": len(got), "want": W.n})
-                    return
+        self.fc = o.value
+
+    def step(self, op):
+        ctx, W, fc = self.ctx, self.W, self.fc
+        if self.dead:
+            return
+        self.hist.append(op)
+        hist = list(self.hist)
+        o = call(run_op, W, fc, op)
+        if not o.ok:
+            ctx.unexpected(o, "op:" + op + (":first" if len(hist) == 1 else ":after_history"))
+            self.dead = True
+            return
+        got = o.value
+        bad = None
+        # ---- op-specific expectations from the model
+        if op == "iterate":
+            want = [(i, [tuple(ev) for ev, _, _ in cat]) for i, cat in enumerate(W.model)]
+            if len(got) != W.n:
+                bad = ("pass_yields_wrong_number_of_catalogs", {"history": hist, "got": len(got), "want": W.n})
+            else:
                 for (gid, grows), (wid, wrows) in zip(got, want):
                     if gid != wid:
-                        ctx.violation("pass_catalog_ids_wrong", {"history": hist, "got": gid, "want": wid})
-                        return
+                        bad = ("pass_catalog_ids_wrong", {"history": hist, "got": gid, "want": wid})
+                        break
                     if grows != wrows:
                         kind = "filters_not_applied_exactly_once" if (W.flt or W.sp) else "pass_yields_different_events"
-                        ctx.violation(kind, {"history": hist, "catalog": wid, "n_got": len(grows), "n_want": len(wrows)})
-                        return
-            elif op == "event_counts":
-                want = [len(c) for c in W.model]
-                if got != want:
-                    kind = "event_counts_accumulate_over_passes" if len(got) > len(want) and len(got) % max(len(want), 1) == 0 else "event_counts_wrong"
-                    ctx.violation(kind, {"history": hist, "got": got[:20], "want": want})
+                        bad = (kind, {"history": hist, "catalog": wid, "n_got": len(grows), "n_want": len(wrows)})
+                        break
+        elif op == "event_counts":
+            want = [len(c) for c in W.model]
+            if got != want:
+                kind = "event_counts_accumulate_over_passes" if len(got) > len(want) and len(got) % max(len(want), 1) == 0 else "event_counts_wrong"
+                bad = (kind, {"history": hist, "got": got[:20], "want": want})
+        elif op == "expected_rates":
+            if got is None:
+                bad = ("expected_rates_not_returned_on_repeated_request", {"history": hist})
+            elif got.shape != W.mean.shape or not numpy.allclose(got, W.mean, rtol=1e-12, atol=0):
+                bad = ("expected_rates_not_mean_of_counts", {"history": hist, "got_sum": float(got.sum()), "want_sum": float(W.mean.sum())})
+        elif op == "spatial_counts":
+            if not numpy.allclose(got, W.mean.sum(axis=1), rtol=1e-12, atol=0):
+                bad = ("spatial_counts_not_marginal_of_mean", {"history": hist})
+        elif op == "magnitude_counts":
+            if not numpy.allclose(got, W.mean.sum(axis=0), rtol=1e-12, atol=0):
+                bad = ("magnitude_counts_not_marginal_of_mean", {"history": hist})
+        else:
+            if op not in self.fresh:
+                fo = call(lambda: run_op(W, W.forecast(), op))
+                if not fo.ok:
+                    ctx.unexpected(fo, "fresh:" + op)
+                    self.dead = True
                     return
-            elif op == "expected_rates":
-                if got is None:
-                    ctx.violation("expected_rates_not_returned_on_repeated_request", {"history": hist})
-                    return
-                if got.shape != W.mean.shape or not numpy.allclose(got, W.mean, rtol=1e-12, atol=0):
-                    ctx.violation("expected_rates_not_mean_of_counts", {"history": hist, "got_sum": float(got.sum()), "want_sum": float(W.mean.sum())})
-                    return
-            elif op == "spatial_counts":
-                if not numpy.allclose(got, W.mean.sum(axis=1), rtol=1e-12, atol=0):
-                    ctx.violation("spatial_counts_not_marginal_of_mean", {"history": hist})
-                    return
-            elif op == "magnitude_counts":
-                if not numpy.allclose(got, W.mean.sum(axis=0), rtol=1e-12, atol=0):
-                    ctx.violation("magnitude_counts_not_marginal_of_mean", {"history": hist})
-                    return
-            else:
-                if op not in fresh:
-                    fo = call(lambda: run_op(W, W.forecast(), op))
-                    if not fo.ok:
-                        ctx.unexpected(fo, "fresh:" + op)
-                        return
-                    fresh[op] = fo.value
-                if got != fresh[op]:
-                    ctx.violation("evaluation_depends_on_history:" + op, {"history": hist, "got": str(got)[:300], "fresh": str(fresh[op])[:300]})
-                    return
-            # ---- invariants after every step
-            if fc.n_cat is not None and fc.n_cat != W.n:
-                ctx.violation("n_cat_wrong", {"history": hist, "got": fc.n_cat, "want": W.n})
+                self.fresh[op] = fo.value
+            if got != self.fresh[op]:
+                bad = ("evaluation_depends_on_history:" + op, {"history": hist, "got": str(got)[:300], "fresh": str(self.fresh[op])[:300]})
+        # ---- invariant after every step
+        if bad is None and fc.n_cat is not None and fc.n_cat != W.n:
+            bad = ("n_cat_wrong", {"history": hist, "got": fc.n_cat, "want": W.n})
+        if bad is not None:
+            # the replayable case is the history so far
+            ctx.violation(bad[0], bad[1], dict(W.case, ops=hist))
+            self.dead = True
+
+
+def check_case(ctx, case):
+    with tempfile.TemporaryDirectory() as d:
+        W = World(case, d)
+        sess = Session(ctx, W)
+        for op in case["ops"]:
+            sess.step(op)
+            if sess.dead:
                 return
 
 
@@ -240,7 +258,66 @@ def cases(draw):
     return {"setup": setup, "cats": cats, "config": list(config), "ops": ops}
 
 
+def run_machine(ctx, max_examples, steps):
+    """Hypothesis rule-based state machine over the same Session: rules are the operations, the invariants run inside
+    every rule, the forecast and configuration are drawn in @initialize; the whole history shrinks as one value."""
+    import hypothesis
+    from hypothesis import HealthCheck, Phase, settings
+    from hypothesis.stateful import RuleBasedStateMachine, initialize, rule, run_state_machine_as_test
+
+    class ForecastMachine(RuleBasedStateMachine):
+        def __init__(self):
+            super().__init__()
+            self.tmp = tempfile.TemporaryDirectory()
+            self.sess = None
+
+        @initialize(case=cases().map(lambda c: dict(c, ops=[])))
+        def setup(self, case):
+            self.case = case
+            self.sess = Session(ctx, World(case, self.tmp.name))
+
+        def _do(self, op):
+            if self.sess is not None:
+                ctx._current = dict(self.case, ops=self.sess.hist + [op])
+                self.sess.step(op)
+
+        @rule()
+        def iterate(self):
+            self._do("iterate")
+
+        @rule()
+        def event_counts(self):
+            self._do("event_counts")
+
+        @rule()
+        def expected_rates(self):
+            self._do("expected_rates")
+
+        @rule()
+        def spatial_counts(self):
+            self._do("spatial_counts")
+
+        @rule()
+        def magnitude_counts(self):
+            self._do("magnitude_counts")
+
+        @rule(op=st.sampled_from(["n_test", "s_test", "m_test", "pl_test"]))
+        def evaluate(self, op):
+            self._do(op)
+
+        def teardown(self):
+            if self.sess is not None and self.sess.hist:
+                case = dict(self.case, ops=list(self.sess.hist))
+                ctx.record(case, nontrivial(case), "machine:" + case["config"][0])
+            self.tmp.cleanup()
+
+    run_state_machine_as_test(hypothesis.seed(ctx.hseed(7))(ForecastMachine),
+                              settings=settings(max_examples=max_examples, stateful_step_count=steps, deadline=None, database=None,
+                                                report_multiple_bugs=False, phases=[Phase.generate], suppress_health_check=list(HealthCheck)))
+
+
 def run(ctx):
+    run_machine(ctx, ctx.n(25, 300), ctx.n(12, 30))
     maxlen = ctx.n(3, 4)
     jobs = []
     for config in CONFIGS:
